@@ -559,11 +559,24 @@ def handlerType (ctor : String) : String := (Gen.C14.handlerTypes.lookup ctor).g
 /-- the method's body is a bare `return nil` -/
 def bodyNil (tm : String) : Bool := Gen.C14.handlerBodies.lookup tm == some "nil"
 
+/-- one rejecting check of `DistrStakingMigrate.Validate` -/
+def stakingCheck (s : State) (frm to : Addr) (chk : String) : Option MErr :=
+  if chk == "validator-from" then (if s.vals.contains frm then some .validator else none)
+  else if chk == "validator-to" then (if s.vals.contains to then some .validator else none)
+  else if chk == "delegations-to" then (if s.dels.any (fun p => p.1.1 == to) then some .toStaking else none)
+  else if chk == "unbonding-to" then (if s.ubds.any (fun p => p.1.1 == to) then some .toStaking else none)
+  else if chk == "redelegations-to" then (if s.reds.any (fun p => p.1.1 == to) then some .toStaking else none)
+  else none
+
+/-- `DistrStakingMigrate.Validate` as the regenerated list of its checks, first refusal wins -/
+def stakingValidateP (checks : List String) (s : State) (frm to : Addr) : Option MErr :=
+  checks.findSome? (stakingCheck s frm to)
+
 /-- `Validate` of one registered handler (`none` = passes) -/
 def handlerValidate (c : Cfg) (s : State) (frm to : Addr) (ctor : String) : Option MErr :=
   let t := handlerType ctor
   if bodyNil (t ++ ".Validate") then none
-  else if t == "DistrStakingMigrate" then stakingValidate c s frm to
+  else if t == "DistrStakingMigrate" then stakingValidateP Gen.C14.stakingValidateProgram s frm to
   else if t == "GovMigrate" then (if govRefuses c s frm to then some .gov else none)
   else none
 
